@@ -19,16 +19,21 @@ PROPS = {
         "engine": "bank",
         "technique": "Lean 4 theorems about the executable ledger model (normal-form invariant, exact per-denom arithmetic of send/burn/mint, failure iff, query agreement, induction over op histories) + differential correspondence of the model with the real App bank module + model-free exact-arithmetic predicate on the implementation's query answers",
         "level_text": "BankKeeper's send = burn;mint over cw-utils NativeBalance (first-match add, sorted insert, checked subtract, normalize) is transcribed into Lean with Nat amounts and proved, for every reachable ledger and every coin list (repeated denoms, zero coins, empty lists, self-transfers, never-seen recipients): stored balances stay normalised; a transfer moves exactly the per-denom total from sender to recipient, changes no other account and no supply; burn/mint move one balance and the supply by exactly the total; send/burn fail iff no coin is positive or some denom's total exceeds the payer's balance (so a self-transfer beyond the balance fails), mint fails iff no coin is positive; Balance = entry of AllBalances, Supply = sum of Balance over all accounts; after any history balance + debits = credits + initial. The transcription is tied to /repo by running the real App and the model on the same generated histories and by evaluating the same arithmetic with python ints on the implementation's own query answers.",
-        "level_note": "Trusted: Lean kernel + propext/Classical.choice/Quot.sound; the hand transcription of bank.rs and cw-utils balance.rs, validated only by the generator-bounded correspondence; Uint128 overflow excluded by the quantifier (amounts < 2^100); storage map and JSON codec of balances modelled as a sorted association list; bech32 address validation not modelled (declared addresses). Contract-initiated transfers (funds on execute/instantiate, bank sub-messages) reach the same BankKeeper::send through the router; that routing is covered by the wasm engine's correspondence (C01-C05), not by this slice.",
+        "level_note": "Trusted: Lean kernel + propext/Classical.choice/Quot.sound; the hand transcription of bank.rs and cw-utils balance.rs, validated only by the generator-bounded correspondence; Uint128 overflow excluded by the quantifier (amounts < 2^100); storage map and JSON codec of balances modelled as a sorted association list; bech32 address validation not modelled (declared addresses). Contract-initiated transfers (funds on execute/instantiate, bank sub-messages) reach the same BankKeeper::send through the router; slice `wasm` drives that path (model: the engine model with this ledger inside).",
         "props_module": "CwMt.Props.C09",
-        "slices": [{"name": "bank", "quick": 15000, "thorough": 150000, "predicate": "pred_bank", "nontrivial": "nt_bank"}],
+        "slices": [{"name": "bank", "quick": 15000, "thorough": 150000, "predicate": "pred_bank", "nontrivial": "nt_bank"},
+                   # the same ledger reached from contracts: funds attached to execute / instantiate (also by a contract to itself),
+                   # bank sub-messages, refunds after failures; model = engine model with the Bank model inside
+                   {"name": "wasm", "quick": 4000, "thorough": 60000, "predicate": "pred_c09_wasm", "nontrivial": "nt_wasm"}],
         "rule": "histories of 6-25 (thorough 10-40) ops over 4 addr_make addresses (payers biased to two of them, so the others are often never-seen recipients), "
                 "3 denoms (one a prefix of another, not in alphabetical order): genesis init_balance, BankSudo::Mint, BankMsg::Send via App::execute and via send_tokens, BankMsg::Burn, "
                 "about 30% self-transfers; coin lists of 0-5 coins with duplicate denoms and 12% zero amounts; amounts 1-60, 3% near 2^100; debit amounts steered to the boundary "
                 "(exactly the balance, balance+1, the balance split over two coins of one denom); 15% of the cases form the malformed stream (invalid/empty/upper-case address strings as "
                 "mint target, sender, recipient and in queries); after every state-changing op one `snap` line with Balance for every (address, denom), AllBalances for every address, "
                 "Supply for every denom and the decoded raw storage dump; single queries with unknown denoms in between. Non-trivial = at least one successful transfer and at least one "
-                "send/burn rejected for insufficient funds in the same history; distinct = distinct op sequence",
+                "send/burn rejected for insufficient funds in the same history; distinct = distinct op sequence; slice wasm: the message trees of C01-C05 (funds attached "
+                "to execute/instantiate incl. contracts calling themselves, amounts 0 / 1 / 500 / 100000 against balances of 10-50, bank sub-messages, burns), predicate: "
+                "supply unchanged across transactions without burn/mint, no invocation is told funds exceeding the whole supply, bank queries of a running callee show the funds moved",
         "trusted_base": BANK_TB,
         "assumptions": ["no balance or supply exceeds the 128-bit range (property quantifier; generator bound 2^100 per coin)"],
     },
